@@ -82,7 +82,7 @@ var checkC14RoundTrip = def("C14/roundtrip", func(c fenCase) error {
 })
 
 func TestC14_roundtrip(t *testing.T) {
-	runRapid(t, "C14/roundtrip", 40000, func(t *rapid.T) fenCase {
+	runRapid(t, "C14/roundtrip", 160000, func(t *rapid.T) fenCase {
 		var st oracle.State
 		if rapid.IntRange(0, 2).Draw(t, "src") == 0 {
 			st = gen.Synth(t)
@@ -207,7 +207,7 @@ func genEngineCase(t *rapid.T) engineCase {
 }
 
 func TestC14_engine(t *testing.T) {
-	runRapid(t, "C14/engine", 8000, genEngineCase, func(c engineCase) error {
+	runRapid(t, "C14/engine", 32000, genEngineCase, func(c engineCase) error {
 		stats.Sample("C14/engine", c)
 		return checkC14Engine(c)
 	})
